@@ -7,6 +7,7 @@ from pyvc.world import Contract
 
 
 def install(w):
+    import sqlglot.errors as sqlglot_errors
     from sqlglot import exp
 
     E = exp.Expression
@@ -126,3 +127,127 @@ def install(w):
             props=["C09"],
         )
     )
+
+    DT = ("(isinstance(expression, exp.Describe) and bool(arg(expression, 'kind')) and isinstance(arg(expression, 'kind'), str) and upper(arg(expression, 'kind')) in ('TABLE', 'VIEW') "
+          "and find_table(expression) is not None)")
+    TB = "find_table(expression)"
+    CAT = f"({TB}.catalog or current_database)"
+    SCH = f"({TB}.db or current_schema)"
+    w.add_contract(
+        Contract(
+            "fakesnow.transforms.describe_table",
+            params={"expression": E, "current_database": (Opt(str), None), "current_schema": (Opt(str), None)},
+            requires=[],
+            result=E,
+            modifies=["$ghost:$parse_n", "$ghost:$parse_text"],
+            may_raise=[sqlglot_errors.ParseError],
+            ensures={
+                "C03.describe.identity": f"implies(not old({DT}), result is expression and parse_count() == old(parse_count()))",
+                # DESCRIBE TABLE/VIEW [c.][s.]t asks the column catalog for exactly c.s.t, the missing parts filled from the session
+                "C03.describe.resolves": f"implies(old({DT}) and not (bool(old({SCH})) and upper(old({SCH})) == 'INFORMATION_SCHEMA'), parse_count() == old(parse_count()) + 1 and is_fresh(result) and "
+                f"(\"WHERE table_catalog = '\" + str(old({CAT})) + \"' AND table_schema = '\" + str(old({SCH})) + \"' AND table_name = '\" + old({TB}.name) + \"'\") in parse_text(old(parse_count())))",
+                "C03.describe.info_schema": f"implies(old({DT}) and bool(old({SCH})) and upper(old({SCH})) == 'INFORMATION_SCHEMA', parse_count() == old(parse_count()) + 1 and "
+                f"('FROM (DESCRIBE information_schema.' + old({TB}.name) + ')') in parse_text(old(parse_count())))",
+            },
+            props=["C03", "C09"],
+        )
+    )
+
+    SS = "(isinstance(expression, exp.Show) and isinstance(arg(expression, 'this'), str) and upper(arg(expression, 'this')) == 'SCHEMAS')"
+    IDN = "(find_ident(expression) is not None and isinstance(arg(find_ident(expression), 'this'), str))"
+    DBN = f"(arg(find_ident(expression), 'this') if {IDN} else current_database)"
+    w.add_contract(
+        Contract(
+            "fakesnow.transforms.show_schemas",
+            params={"expression": E, "current_database": (Opt(str), None)},
+            requires=[],
+            result=E,
+            modifies=["$ghost:$parse_n", "$ghost:$parse_text"],
+            may_raise=[sqlglot_errors.ParseError],
+            ensures={
+                "C03.show_schemas.identity": f"implies(not old({SS}), result is expression and parse_count() == old(parse_count()))",
+                # SHOW SCHEMAS [IN DATABASE d]: the schemata of d, else of the session's database, else of the whole account;
+                # fakesnow's / DuckDB's internal catalogs and schemas are always excluded (C09)
+                "C03.show_schemas.scope": f"implies(old({SS}) and bool(old({DBN})), parse_count() == old(parse_count()) + 1 and parse_text(old(parse_count())) == SQL_SHOW_SCHEMAS + \" and catalog_name = '\" + old({DBN}) + \"'\")",
+                "C03.show_schemas.account": f"implies(old({SS}) and not bool(old({DBN})), parse_count() == old(parse_count()) + 1 and parse_text(old(parse_count())) == SQL_SHOW_SCHEMAS)",
+                "C09.show_schemas.hides_internal": "\"where catalog_name not in ('memory', 'system', 'temp') and schema_name not in ('main', 'pg_catalog')\" in SQL_SHOW_SCHEMAS",
+            },
+            props=["C03", "C09"],
+        )
+    )
+
+    SO = "(isinstance(expression, exp.Show) and isinstance(arg(expression, 'this'), str) and bool(upper(arg(expression, 'this'))) and upper(arg(expression, 'this')) in ('OBJECTS', 'TABLES'))"
+    TBL_ = "find_table(expression)"
+    SK = "arg(expression, 'scope_kind')"
+    CATALOG = f"(((({TBL_} is not None) and {TBL_}.name) or current_database) if {SK} == 'DATABASE' else (({TBL_}.db or current_database) if ({SK} == 'SCHEMA' and {TBL_} is not None) else None))"
+    w.add_contract(
+        Contract(
+            "fakesnow.transforms.show_objects_tables",
+            params={"expression": E, "current_database": (Opt(str), None)},
+            # field shape (A-SQLGLOT 1): a parsed SHOW carries the `terse` flag
+            requires=[f"implies({SO}, has_arg(expression, 'terse'))"],
+            result=E,
+            modifies=["$ghost:$parse_n", "$ghost:$parse_text"],
+            may_raise=[sqlglot_errors.ParseError],
+            ensures={
+                "C03.show_objects.identity": f"implies(not old({SO}), result is expression and parse_count() == old(parse_count()))",
+                "C03.show_objects.parsed_once": f"implies(old({SO}), parse_count() == old(parse_count()) + 1)",
+                # C09: fakesnow's own tables are never listed
+                "C09.show_objects.hides_internal": f"implies(old({SO}), \"not (table_schema == 'information_schema' and table_name like '_fs_%%')\" in parse_text(old(parse_count())))",
+                # scope: IN DATABASE d / IN SCHEMA [d.]s / the session's database; account-wide only without any of them
+                "C03.show_objects.catalog": f"implies(old({SO}) and bool(old({CATALOG})), (\" and table_catalog = '\" + old({CATALOG}) + \"'\") in parse_text(old(parse_count())))",
+                "C03.show_objects.schema": f"implies(old({SO}) and old({SK} == 'SCHEMA' and {TBL_} is not None and bool({TBL_}.name)), (\" and table_schema = '\" + old({TBL_}.name) + \"'\") in parse_text(old(parse_count())))",
+                "C09.show_objects.tables_only": f"implies(old({SO}) and old(upper(arg(expression, 'this'))) == 'TABLES', \"where table_type = 'BASE TABLE' and \" in parse_text(old(parse_count())))",
+            },
+            props=["C03", "C09"],
+        )
+    )
+
+    AL = "arg(result, 'alias')"
+    COLS = f"arg({AL}, 'columns')"
+    w.add_contract(
+        Contract(
+            "fakesnow.transforms.values_columns",
+            params={"expression": E},
+            requires=[],
+            result=E,
+            modifies=["expression.args.$dmap", "expression.args.$dhas", "*.parent", "$ghost:$treever"],
+            ensures={
+                "C10.values.same_node": "result is expression",
+                # when an alias is attached it names the columns COLUMN1 .. COLUMNn (quoted, i.e. exactly this spelling), n = width of the first row
+                "C10.values.names": f"implies(not old(has_arg(expression, 'alias')) and has_arg(result, 'alias') and isinstance({AL}, exp.TableAlias), is_list({COLS}) and "
+                f"forall(0, seq_len({COLS}), lambda j: isinstance(seq_at({COLS}, j), exp.Identifier) and arg(seq_at({COLS}, j), 'this') == 'COLUMN' + str(j + 1) and arg(seq_at({COLS}, j), 'quoted') == True))",
+                "C10.values.width": f"implies(not old(has_arg(expression, 'alias')) and has_arg(result, 'alias') and isinstance({AL}, exp.TableAlias), "
+                f"seq_len({COLS}) == old(seq_len(node_expressions(find_tuple(expression)))))",
+            },
+            props=["C10"],
+        )
+    )
+
+    UNIT = "arg(expression, 'unit')"
+    DA = (f"(isinstance(expression, exp.DateAdd) and {UNIT} is not None and isinstance(arg({UNIT}, 'this'), str) "
+          f"and upper(arg({UNIT}, 'this')) in ('DAY', 'WEEK', 'MONTH', 'QUARTER', 'YEAR') "
+          "and isinstance(arg(expression, 'this'), exp.Cast) and arg(arg(arg(expression, 'this'), 'to'), 'this') == exp.DataType.Type.DATE)")
+    w.add_contract(
+        Contract(
+            "fakesnow.transforms.dateadd_date_cast",
+            params={"expression": E},
+            # field shapes (A-SQLGLOT 1): DateAdd.unit is a Var node or absent; Cast.to is a DataType node
+            requires=[
+                f"implies(isinstance(expression, exp.DateAdd) and {UNIT} is not None, isinstance({UNIT}, exp.Expression))",
+                "implies(isinstance(expression, exp.DateAdd) and isinstance(arg(expression, 'this'), exp.Cast), isinstance(arg(arg(expression, 'this'), 'to'), exp.Expression))",
+                # a unit that was parsed is not the empty string
+                f"implies(isinstance(expression, exp.DateAdd) and {UNIT} is not None and isinstance(arg({UNIT}, 'this'), str), arg({UNIT}, 'this') != '')",
+            ],
+            result=E,
+            modifies=["*.parent", "$ghost:$treever"],
+            ensures={
+                # Snowflake: DATEADD of a day-or-larger part to a DATE is a DATE; DuckDB returns a timestamp, so exactly these are cast back
+                "C10.dateadd.cast_back": f"implies(old({DA}), is_fresh(result) and cls_is(result, exp.Cast) and arg(result, 'this') is expression "
+                "and isinstance(arg(result, 'to'), exp.DataType) and arg(arg(result, 'to'), 'this') == exp.DataType.Type.DATE)",
+                "C10.dateadd.else_untouched": f"implies(not old({DA}), result is expression)",
+            },
+            props=["C10"],
+        )
+    )
+
